@@ -160,13 +160,18 @@ func (st *c16st) dump() string {
 		strings.Join(ep, " "), strings.Join(ip, " "))
 }
 
+// JSON text of the values; the atom `null` stands for a JSON null (decodes to the zero value)
 func jsonInts(s *Sexp) []byte {
-	xs := []int{}
+	xs := []string{}
 	for _, v := range s.List {
-		xs = append(xs, v.Int())
+		if v.Atom == "null" {
+			xs = append(xs, "null")
+			continue
+		}
+		b, _ := json.Marshal(v.Int())
+		xs = append(xs, string(b))
 	}
-	b, _ := json.Marshal(xs)
-	return b
+	return []byte("[" + strings.Join(xs, ",") + "]")
 }
 
 func (st *c16st) step(op *Sexp) string {
